@@ -117,8 +117,19 @@ func cmdAllotScale(args []string) {
 				}
 			}
 		}
+		// C03 beyond TLC's integers: the postings of the big run add up to U times what the (TLC-validated) small run moved, or there are none
+		sumSmall, sumBig := new(big.Int), new(big.Int)
+		for _, sp := range er.outcome.Post {
+			sumSmall.Add(sumSmall, sp.Amount)
+		}
+		for _, po := range o.Post {
+			if po.Amount != nil {
+				sumBig.Add(sumBig, po.Amount)
+			}
+		}
+		sumok := (o.St == "ok" && sumBig.Cmp(new(big.Int).Mul(U, sumSmall)) == 0) || (o.St != "ok" && len(o.Post) == 0)
 		line := J{"e": "scale", "n": cnt, "id": cnt, "text": c.Text, "factor": U.String(), "small": postingsToJSON(er.outcome.Post), "big": bigPost, "st": o.St, "equal": equal,
-			"rawvars": c.RawVars, "positive": positive}
+			"rawvars": c.RawVars, "positive": positive, "sumok": sumok}
 		lw.write(line)
 		if len(samples) < 2 && len(o.Post) >= 2 {
 			samples = append(samples, line)
